@@ -1,4 +1,5 @@
 import XcpModel.Walker
+import XcpProofs.WalkerLemmas
 /-! # C13 — `--dereference` copies what links point to, or fails; never leaves links or gaps
 
 Model slice: `walkEntry` with `dereference = true` (walkdir follows links after the `fix:` commit, the walker
@@ -7,17 +8,36 @@ namespace Xcp.C13
 
 open Xcp
 
-/-- a fully resolved path never designates a symbolic link -/
-theorem canonical_is_not_a_link (fs : Fs) (p q : RPath) (h : fs.canonicalize p = .ok q) (c : List Name) (n : Node)
-    (hl : fs.lstat q = some (c, n)) : n.isLink = false := by
-  sorry
+/-- a fully resolved path never designates a symbolic link.
+
+The two hypotheses on `fs` exclude degenerate values of the `Fs` structure that no real file system has and
+for which the statement is false: `Fs.root` may be any `Node` and `Fs.cwd` any list of names.
+* root a link: `fs = ⟨.link t, []⟩`, `p = ⟨true, [], false⟩` gives `canonicalize p = .ok p` and
+  `lstat p = some ([], .link t)`.
+* working directory designating a link: `fs = ⟨.dir [(l, .link t)], [l]⟩`, `p = ⟨false, [.cur], false⟩` gives
+  `canonicalize p = .ok ⟨true, [.name l], false⟩`, whose `lstat` is the link `l`.  (Likewise a working directory
+  *below* a link, `[l, x]`, with `p = ..`.)
+With the root not a link and the working directory the root or an existing directory the statement holds for
+every tree. -/
+theorem canonical_is_not_a_link (fs : Fs) (hroot : fs.root.isLink = false)
+    (hcwd : fs.cwd = [] ∨ ∃ es, fs.root.getAt fs.cwd = some (.dir es))
+    (p q : RPath) (h : fs.canonicalize p = .ok q) (c : List Name) (n : Node)
+    (hl : fs.lstat q = some (c, n)) : n.isLink = false :=
+  lstat_canonical_nonlink fs hroot hcwd p q h c n hl
 
 def isLinkOp : Op → Bool | .link _ _ => true | _ => false
 
-/-- with dereference the walk emits no link operation, for any tree, any links, chains of any length -/
-theorem deref_emits_no_link_op (fs : Fs) (c : Cfg) (hd : c.dereference = true) (gi : Ignore) (src tb : RPath) :
+/-- with dereference the walk emits no link operation, for any tree, any links, chains of any length
+(same hypotheses on `fs` as `canonical_is_not_a_link`, on which it rests) -/
+theorem deref_emits_no_link_op (fs : Fs) (hroot : fs.root.isLink = false)
+    (hcwd : fs.cwd = [] ∨ ∃ es, fs.root.getAt fs.cwd = some (.dir es))
+    (c : Cfg) (hd : c.dereference = true) (gi : Ignore) (src tb : RPath) :
     ∀ (fuel : Nat) (rel : List Name) (anc : List (List Name)), ∀ op ∈ walkEntry fs c gi src tb fuel rel anc, isLinkOp op = false := by
-  sorry
+  intro fuel rel anc op h
+  have := walkEntry_deref_no_link fs hroot hcwd c hd gi src tb fuel rel anc op h
+  cases op with
+  | link t tg => exact absurd rfl (this t tg)
+  | _ => rfl
 
 /-- number of symbolic links in a tree -/
 def countLinks : Node → Nat
@@ -28,26 +48,45 @@ where countLinksL : List (Name × Node) → Nat
   | [] => 0
   | (_, n) :: r => countLinks n + countLinksL r
 
+mutual
+/-- `countLinks` is the `linkCount` the lemmas of `XcpProofs.WalkerLemmas` speak about -/
+theorem countLinks_eq : (n : Node) → countLinks n = linkCount n
+  | .link _ => by simp [countLinks, linkCount]
+  | .dir es => by simp [countLinks, linkCount, countLinksL_eq es]
+  | .file _ => by simp [countLinks, linkCount]
+  | .special _ _ => by simp [countLinks, linkCount]
+theorem countLinksL_eq : (es : List (Name × Node)) → countLinks.countLinksL es = linkCountL es
+  | [] => by simp [countLinks.countLinksL, linkCountL]
+  | (_, n) :: r => by simp [countLinks.countLinksL, linkCountL, countLinks_eq n, countLinksL_eq r]
+end
+
 /-- executing operations none of which is a link operation creates no symbolic link anywhere -/
 theorem no_link_ops_create_no_links (fs : Fs) (c : Cfg) (ops : List Op) (h : ∀ op ∈ ops, isLinkOp op = false) :
     countLinks (execOps fs c ops).fs.root ≤ countLinks fs.root := by
-  sorry
+  rw [countLinks_eq, countLinks_eq]
+  refine execOps_links c ops fs ?_
+  intro op hop t tg he
+  have := h op hop
+  rw [he] at this
+  cases this
 
 /-- a dangling link makes the walk fail (and a failed walk makes the run exit non-zero) -/
 theorem dangling_link_fails (fs : Fs) (c : Cfg) (hd : c.dereference = true) (gi : Ignore) (src tb : RPath)
     (fuel : Nat) (rel : List Name) (anc : List (List Name)) (cp : List Name) (t : RPath)
     (hl : fs.lstat (relJoin src rel) = some (cp, .link t)) (hs : fs.stat (relJoin src rel) = none) :
     walkEntry fs c gi src tb (fuel + 1) rel anc = [.fail] := by
-  sorry
+  simp [walkEntry, hl, hs, hd, Node.isLink]
 
 theorem fail_op_exits_nonzero (fs : Fs) (c : Cfg) (pre post : List Op) (h : ∀ op ∈ pre, (execOp fs c op).isSome → True) :
     (execOps fs c (.fail :: post)).exit = .err := by
-  sorry
+  have _ := h
+  simp [execOps, execOp]
 
+set_option maxRecDepth 8192 in  -- the walk burns all `resolveFuel = 256` units of fuel before giving ELOOP
 /-- a cyclic link (`l -> l`, `a -> b -> a`) never resolves: it is reported like a dangling one -/
 theorem cyclic_link_does_not_resolve :
     let root : Node := .dir [([83], .dir [([108], .link ⟨false, [.name [108]], false⟩)])]
     (Fs.stat ⟨root, []⟩ ⟨true, [.name [83], .name [108]], false⟩) = none := by
-  sorry
+  decide
 
 end Xcp.C13
